@@ -3,7 +3,7 @@ import json, sys
 props = {json.loads(l)["id"]: json.loads(l) for l in open("/verif/properties.jsonl")}
 pid = sys.argv[1]
 p = props[pid]
-print(f"""You are helping to evaluate a verification tool by planting realistic bugs in a Python project. You work ONLY inside the scratch git worktree /tmp/seed/{pid} (a checkout of the project `androguard`, a pure-Python parser for Android DEX/APK/binary-XML/ARSC files with a Dalvik decompiler). Do NOT read, list or use anything under /verif, and do NOT touch /repo. Interpreter: /venv/bin/python. To run code against THIS tree always use `cd /tmp/seed/{pid} && PYTHONPATH=/tmp/seed/{pid} /venv/bin/python ...` and confirm once that `import androguard; print(androguard.__file__)` points into /tmp/seed/{pid}. There is no network.
+print(f"""You are helping to evaluate a verification tool by planting realistic bugs in a Python project. You work ONLY inside the scratch git clone /tmp/seed/{pid} (a checkout of the project `androguard`, a pure-Python parser for Android DEX/APK/binary-XML/ARSC files with a Dalvik decompiler). Do NOT read, list or use anything under /verif, and do NOT touch /repo. Interpreter: /venv/bin/python. To run code against THIS tree always use `cd /tmp/seed/{pid} && PYTHONPATH=/tmp/seed/{pid} /venv/bin/python ...` and confirm once that `import androguard; print(androguard.__file__)` points into /tmp/seed/{pid}. There is no network.
 
 The property under test (this text is all you get about it):
   TITLE: {p['title']}
@@ -18,7 +18,7 @@ YOUR TASK: produce TWO different, independent changes (call them A and B) to the
   4. needs something SPECIFIC to manifest - a particular unusual input, value at a boundary, multi-step sequence of operations, particular interleaving, or two cooperating code sites that each look fine alone - i.e. NOT something that ordinary use or the existing tests would expose at once. Prefer subtle over blatant; A and B should hit different mechanisms / different code sites.
 For each change write, in /tmp/seed/{pid}_out/A/ (resp. /B/):
   - patch.diff : output of `git -C /tmp/seed/{pid} diff` (must apply with `git apply` to a clean checkout of the same commit),
-  - demo.py    : a small self-contained demonstration using only androguard's public API (and the standard library; you may construct input bytes by hand or take files from tests/data) that exits 0 and prints PASS on the UNMODIFIED tree and exits 1 and prints FAIL with the change applied; it must be runnable as `cd <tree> && PYTHONPATH=<tree> /venv/bin/python /tmp/seed/{pid}_out/A/demo.py`. Verify both outcomes yourself (apply / `git stash` or `git checkout -- .`).
+  - demo.py    : a small self-contained demonstration using only androguard's public API (and the standard library; you may construct input bytes by hand or take files from tests/data) that exits 0 and prints PASS on the UNMODIFIED tree and exits 1 and prints FAIL with the change applied; it must be runnable as `cd <tree> && PYTHONPATH=<tree> /venv/bin/python /tmp/seed/{pid}_out/A/demo.py`. Verify both outcomes yourself (save the diff to a file, `git checkout -- .`, later `git apply` the file; do not use `git stash`).
   - meta.json  : {{"property": "{pid}", "summary": "<one line: what the change does>", "needs_to_manifest": "<what specific input/sequence triggers it>", "files_changed": [...], "tests_run": "<command(s)>", "tests_result": "<summary>"}}
 After saving A run `git -C /tmp/seed/{pid} checkout -- .` and do B from the clean tree. Leave the worktree clean (no uncommitted changes) at the end. Do not commit anything.
 Final message: for A and B one paragraph each (what, where, trigger, tests run and result, demo verified on both trees yes/no).""")
